@@ -406,11 +406,21 @@ fn oracle_combo<C: RangeCombo>(rng: &mut Rng, w: u32, s: u32, bps: &[(u32, Vec<u
             let wraps = fin_lower.wrapping_add((1u128 << (s - w)) - 1) & mask(s) < fin_lower;
             rep.count(if wraps { "seal.inverted.wrap" } else { "seal.inverted.nowrap" });
         }
-        if s > 2 * w {
+        // the documented weakness D3, read off the final encoder state before sealing: State
+        // wider than two Words, the zero word is emitted (top word of `lower + range` equals the
+        // point word) and the upper end is less than 2^(S-2W) above `point_word·2^(S-W)`
+        // (= the hypothesis `D3Safe` of the partial theorem is false)
+        let d3_condition: &str = {
             let (lo, r, _) = enc_view::<C>(&coder);
-            let up = lo.wrapping_add(r) & mask(s);
-            let low_part = up & (pow2(s - w) - 1);
-            if low_part >= 1 && low_part < pow2(s - 2 * w) {
+            let m = mask(s);
+            let u = pow2(s - w);
+            let up = lo.wrapping_add(r) & m;
+            let pw = (lo.wrapping_add(u - 1) & m) >> (s - w);
+            let uw = up >> (s - w);
+            if s > 2 * w && pw == uw && (up & (u - 1)) < pow2(s - 2 * w) { "yes" } else { "no" }
+        };
+        if s > 2 * w {
+            if d3_condition == "yes" {
                 rep.count(&format!("C11.d3_condition.{}", tag));
             }
             if hunt == 1 { rep.count("C11.hunted"); }
@@ -546,10 +556,10 @@ fn oracle_combo<C: RangeCombo>(rng: &mut Rng, w: u32, s: u32, bps: &[(u32, Vec<u
                 data.extend(suffix.iter().copied());
                 let mut d: Dec<C> = RangeDecoder::from_compressed(words::<C::W>(&data)).unwrap();
                 if let Err(t) = decode_expect::<C, _>(&mut d, &msg) {
-                    rep.count(&format!("C11.failures.{}", tag));
-                    if s == 2 * w || d3_reported < 4 {
+                    rep.count(&format!("C11.failures.{}.d3-condition={}", tag, d3_condition));
+                    if s == 2 * w || d3_condition == "no" || d3_reported < 4 {
                         d3_reported += 1;
-                        rep.fail("C11", format!("{} | export => {} ; suffix {}{} ; decoding sealed++suffix with{} => {}", plain_new, show_list(payload.clone()), show_list(suffix.clone()), note, msg_decs(&msg), t));
+                        rep.fail("C11", format!("{} | export => {} ; suffix {}{} ; decoding sealed++suffix with{} => {} d3-condition={}", plain_new, show_list(payload.clone()), show_list(suffix.clone()), note, msg_decs(&msg), t, d3_condition));
                     }
                     break;
                 }
